@@ -43,7 +43,8 @@ STUB_COMPONENTS = [
     "asyncio selector + datagram transport -> SimLoop / SimTransport over SimNet",
     "time.monotonic as read by zeroconf._utils.time -> simulator clock",
     "random.randint at the four jitter sites -> per-host seeded streams",
-    "threaded wrappers (Zeroconf._start_thread, ServiceBrowser thread, shutdown_loop) are not run",
+    "threaded wrappers: Zeroconf._start_thread and shutdown_loop are not run; the delivery thread of ServiceBrowser is "
+    "modelled cooperatively in C17 (its queue and join are the simulator's), nowhere else",
 ]
 
 
